@@ -218,16 +218,17 @@ harness!(empty_file, 6, {
     std::mem::forget(src);
 });
 
-//# harness line_input_n1 tier=quick label=bounded(N=1,alphabet5,symbolic) props=C18 fn=rusty_basic/src/interpreter/read_input.rs::ReadInputSource::line_input
+//# harness line_input_n1 tier=quick label=bounded(N=1,alphabet5,enumerated) props=C18 fn=rusty_basic/src/interpreter/read_input.rs::ReadInputSource::line_input
 harness!(line_input_n1, 6, {
-    let data = [any_byte(), 0, 0, 0];
-    let mut src = fresh(data, 1);
-    let p1 = step_line_input(&mut src, 0);
-    let p2 = step_line_input(&mut src, p1);
-    assert!(p1 == 1 && p2 == 1);
-    reach!(data[0] == b'\r');
-    reach!(data[0] == b'a');
-    std::mem::forget(src);
+    let mut k = 0;
+    while k < 5 {
+        let mut src = fresh([ALPHABET[k], 0, 0, 0], 1);
+        let p1 = step_line_input(&mut src, 0);
+        let p2 = step_line_input(&mut src, p1);
+        assert!(p1 == 1 && p2 == 1);
+        std::mem::forget(src);
+        k += 1;
+    }
 });
 
 //# harness input_n1 tier=quick label=bounded(N=1,alphabet5,enumerated) props=C18 fn=rusty_basic/src/interpreter/read_input.rs::ReadInputSource::input
@@ -331,4 +332,34 @@ harness!(concrete_field_crlf_field, 6, {
     let p3 = step_input(&mut src, p2);
     assert!(p1 == 3 && p2 == 4 && p3 == 4, "a CR LF b is the two fields a and b, then end of file");
     std::mem::forget(src);
+});
+
+// C08 -- "for any console input ... never ends in an internal failure such as a panic": a byte of ANY value (not only ASCII)
+// arriving on the reader must give a BASIC-level outcome -- a string or an error -- never a panic.
+// one concrete file per byte value, one value per UTF-8 class (ASCII, continuation byte, 2-/3-/4-byte leader, never-valid): a symbolic
+// byte sends CBMC through the UTF-8 encoder of String and out of memory, all 256 values unrolled do not finish in 15 minutes
+const BYTE_CLASSES: [u8; 9] = [0x00, 0x61, 0x7f, 0x80, 0xbf, 0xc3, 0xe2, 0xf0, 0xff];
+
+//# harness line_input_any_byte_total tier=quick label=bounded(N=1,9-byte-values-one-per-UTF-8-class,enumerated) props=C08,C18 fn=rusty_basic/src/interpreter/read_input.rs::ReadInputSource::line_input timeout=900
+harness!(line_input_any_byte_total, 11, {
+    let mut k = 0;
+    while k < 9 {
+        let mut src = fresh([BYTE_CLASSES[k], 0, 0, 0], 1);
+        let r = src.line_input();
+        std::mem::forget(r);
+        std::mem::forget(src);
+        k += 1;
+    }
+});
+
+//# harness input_any_byte_total tier=quick label=bounded(N=1,9-byte-values-one-per-UTF-8-class,enumerated) props=C08,C18 fn=rusty_basic/src/interpreter/read_input.rs::ReadInputSource::input timeout=900
+harness!(input_any_byte_total, 11, {
+    let mut k = 0;
+    while k < 9 {
+        let mut src = fresh([BYTE_CLASSES[k], 0, 0, 0], 1);
+        let r = src.input();
+        std::mem::forget(r);
+        std::mem::forget(src);
+        k += 1;
+    }
 });
